@@ -427,6 +427,10 @@ class Client(base_client.BaseClient):
         if not isinstance(data, list):
             # (a string or an object would be taken apart into arguments)
             raise ValueError('The payload of an acknowledgement is a list.')
+        if type(id) is not int:
+            # (with the msgpack serializer an id arrives as it was packed:
+            # 1.0 or true would find the callback registered under 1)
+            raise ValueError('The id of an acknowledgement is an integer.')
         namespace = namespace or '/'
         self.logger.info('Received ack [%s]', namespace)
         callback = None
